@@ -7,6 +7,7 @@ import (
 
 	"github.com/tyler-sommer/stick"
 	"github.com/tyler-sommer/stick/twig"
+	"github.com/tyler-sommer/stick/twig/escape"
 
 	"verif/core"
 )
@@ -155,7 +156,14 @@ func c12ScenarioX(pos int, ext, E string) (tpls map[string]string, main string, 
 var c12Forms = []string{"x", "o.attr", "f()", "(x ~ '')", "(c ? x : '')", "\"#{x}\""}
 
 // modifiers: 0 none, 1 raw, 2 escape, 3 escape('html'), 4 escape(own type), 5 escape('js'), 6 safe for the same type, 7 safe for another type
-const c12Mods = 12 // 11: marked safe for a custom content type only; 10: marked safe for another type, then re-wrapped as safe for the own type (the re-wrap is discarded)
+const c12Mods = 14 // 12: marked safe with an empty list of content types, 13: a user-defined SafeValue that is safe for nothing (neither gets around escaping); 11: marked safe for a custom content type only; 10: marked safe for another type, then re-wrapped as safe for the own type (the re-wrap is discarded)
+
+// c12SafeForNothing is a user-defined SafeValue that declares no content type.
+type c12SafeForNothing struct{ v stick.Value }
+
+func (c c12SafeForNothing) Value() stick.Value     { return c.v }
+func (c c12SafeForNothing) IsSafe(typ string) bool { return false }
+func (c c12SafeForNothing) SafeFor() []string      { return nil }
 
 type c12Loader struct{ m map[string]string }
 
@@ -240,7 +248,58 @@ var c12Carriers = []func() stick.Value{
 	func() stick.Value { return &c12SPtr{1} },
 }
 
+// c12InlineSize: an inline template (the source is its own name, served by the StringLoader of twig.New(nil)) is html
+// whatever its size and layout: n bytes of padding inside the print's delimiters (blanks / line breaks), in front of the
+// print or behind it, and text that ends like a file name (" notes.txt", ".js", ".css.twig", ".html_attr") at the end.
+func c12InlineSize(pi, padKind, n, si int) core.Result {
+	payload := c12Payloads[pi]
+	suffix := []string{"", " see notes.txt", " app.js", " x.css.twig", ".url", ".txt"}[si]
+	pad := ""
+	src := ""
+	switch padKind {
+	case 0:
+		pad = strings.Repeat(" ", n)
+		src = "AQ{{ x" + pad + " }}QZ" + suffix
+	case 1:
+		pad = strings.Repeat("\n", n)
+		src = "AQ{{" + pad + "x }}QZ" + suffix
+	case 2:
+		pad = strings.Repeat("p", n)
+		src = pad + "AQ{{ x }}QZ" + suffix
+	case 3:
+		pad = strings.Repeat("p", n)
+		src = "AQ{{ x }}QZ" + pad + suffix
+	case 4: // a long list laid out one element per line inside the last tag
+		var els []string
+		for i := 0; i < n/4+1; i++ {
+			els = append(els, "\n  "+itoa(i%10))
+		}
+		pad = "{% if [" + strings.Join(els, ",") + "\n] %}{% endif %}"
+		src = "AQ{{ x }}QZ" + pad + suffix
+		pad = ""
+	}
+	out, err, pan := tryExec(twig.New(nil), src, map[string]stick.Value{"x": payload})
+	desc := fmt.Sprintf("inline template of %d bytes (padding kind %d, %d bytes; ends in %q) with value %q", len(src), padKind, n, suffix, payload)
+	if pan != "" || err != nil {
+		return core.Violation("error", fmt.Sprintf("%s: %v %s", desc, err, pan))
+	}
+	want := "AQ" + escape.HTML(payload) + "QZ" + suffix
+	switch padKind {
+	case 2:
+		want = pad + want
+	case 3:
+		want = "AQ" + escape.HTML(payload) + "QZ" + pad + suffix
+	}
+	if out != want {
+		return core.Violation("unescaped", fmt.Sprintf("%s renders ...%q, want ...%q (an inline template is html)", desc, tail(out, 60), tail(want, 60)))
+	}
+	return core.Okay(true, itoa(len(out)))
+}
+
 func c12Run(c core.Case) core.Result {
+	if c.Fam == "inlinesize" {
+		return c12InlineSize(c.N[0], c.N[1], c.N[2], c.N[3])
+	}
 	// N = [pos, form, payload, name (-1 inline, -2 inline with dot), mod]
 	pos, form, pi, ni, mod := c.N[0], c.N[1], c.N[2], c.N[3], c.N[4]
 	var payload string
@@ -279,7 +338,7 @@ func c12Run(c core.Case) core.Result {
 	case 9:
 		E += "|escape('nosuch')|upper|escape('txt')"
 	}
-	if (mod == 6 || mod == 7 || mod == 10 || mod == 11) && form > 2 {
+	if (mod == 6 || mod == 7 || mod >= 10) && form > 2 {
 		return core.Skipped("safe-value-lost-by-expression")
 	}
 	tpls, main, direct, cross := c12ScenarioX(pos, ext, E)
@@ -318,6 +377,10 @@ func c12Run(c core.Case) core.Result {
 			other = "html"
 		}
 		val = stick.NewSafeValue(payload, other)
+	case 12:
+		val = stick.NewSafeValue(payload) // no content type at all
+	case 13:
+		val = c12SafeForNothing{payload}
 	case 11:
 		val = stick.NewSafeValue(payload, "zzcustom") // a user-defined content type: no template of this corpus has it
 	case 10:
@@ -438,7 +501,22 @@ func c12Levels(tier string) []core.Level {
 		{Name: "31 print positions x variable x all 13 payloads x all 24 template names x no modifier", Gen: func(emit func(core.Case)) {
 			gen(all(len(c12Payloads)), []int{0}, []int{0}, names, emit)
 		}},
-		{Name: "31 positions x 6 value forms x 13 payloads x 24 names x 12 modifiers (full product)", Gen: func(emit func(core.Case)) {
+		{Name: "inline templates of every size: 0..320 bytes and 500, 1000, 4096, 70000 bytes of padding inside the print's delimiters (blanks, line breaks), in front of the print, behind it, or as a list laid out over many lines in a last tag x 6 endings that look like file names x 3 payloads: html all the same", Gen: func(emit func(core.Case)) {
+			ns := []int{500, 1000, 4096, 70000}
+			for n := 0; n <= 320; n++ {
+				ns = append(ns, n)
+			}
+			for _, pi := range []int{0, 4, 8} {
+				for kind := 0; kind < 5; kind++ {
+					for _, n := range ns {
+						for si := 0; si < 6; si++ {
+							emit(core.Case{Fam: "inlinesize", N: []int{pi, kind, n, si}})
+						}
+					}
+				}
+			}
+		}},
+		{Name: "31 positions x 6 value forms x 13 payloads x 24 names x 14 modifiers (full product)", Gen: func(emit func(core.Case)) {
 			gen(all(len(c12Payloads)), all(len(c12Forms)), all(c12Mods), names, emit)
 		}},
 		{Name: "values that are not strings: 31 positions x {variable, function result} x 13 payloads carried as the String() of 9 Go types (named int, int64, uint8, bool true/false, float64, float32; struct; pointer) x 24 names x {none, raw, escape, escape('html'), escape(own type)}", Gen: func(emit func(core.Case)) {
@@ -480,7 +558,7 @@ func init() {
 	core.Register(&core.Check{
 		ID:       "C12",
 		Category: "exploration",
-		Rule: "full product of 31 print positions (top level, if / else / elseif branch, for body, for-else, block, nested block, overriding block of a child, block via parent(), inherited block, included template, embedded template, embed override block, set-capture body, filter section, macro body, imported macro; macro result / capture / parent() / block() printed with |raw; html page including a js partial, js child overriding / inheriting a block of an html base; two blocks of one name in one file: two embeds, a block containing an embed, an override embedding first, embeds at two levels; macros defined in an extending template, imported elsewhere through import / from) x 6 value forms (variable, attribute, function result, concatenation, conditional, interpolation) x 13 payloads (< > \" ' & </script> \\ ; newline, multi-byte, astral, mixed) x 24 template names (html, js, css, txt with and without .twig, no extension, unknown extension, trailing dot, inline sources without a dot, with dots, and ending in '.txt' / '.js' / '.css.twig'; names with several dots or a dotted directory) x 12 modifiers (none, raw, escape, escape('html'), escape(own type), escape('js'), escape('txt'), a chain of unknown strategies, value marked safe for the same / another type, marked safe for another type and then re-wrapped for the own type, marked safe for a user-defined type only), in a twig.New environment; and the payloads carried as the String() of 9 non-string Go types (named numeric and bool kinds, struct, pointer). " +
+		Rule: "full product of 31 print positions (top level, if / else / elseif branch, for body, for-else, block, nested block, overriding block of a child, block via parent(), inherited block, included template, embedded template, embed override block, set-capture body, filter section, macro body, imported macro; macro result / capture / parent() / block() printed with |raw; html page including a js partial, js child overriding / inheriting a block of an html base; two blocks of one name in one file: two embeds, a block containing an embed, an override embedding first, embeds at two levels; macros defined in an extending template, imported elsewhere through import / from) x 6 value forms (variable, attribute, function result, concatenation, conditional, interpolation) x 13 payloads (< > \" ' & </script> \\ ; newline, multi-byte, astral, mixed) x 24 template names (html, js, css, txt with and without .twig, no extension, unknown extension, trailing dot, inline sources without a dot, with dots, and ending in '.txt' / '.js' / '.css.twig'; names with several dots or a dotted directory) x 14 modifiers (none, raw, escape, escape('html'), escape(own type), escape('js'), escape('txt'), a chain of unknown strategies, value marked safe for the same / another type, marked safe for another type and then re-wrapped for the own type, marked safe for a user-defined type only, marked safe with an empty list of types, a user-defined SafeValue that is safe for nothing), in a twig.New environment; and the payloads carried as the String() of 9 non-string Go types (named numeric and bool kinds, struct, pointer). " +
 			"Oracle: expected content type = registered escaper of the extension, none for txt, html otherwise; a directly printed value must decode (decoder of that context) to the payload and lie in the context's inert alphabet: escaped exactly once; raw and same-type safe values verbatim; values reaching the output through a capture / macro result / parent() must be inert. distinct = distinct configuration; non-trivial = an assertion was made",
 		Assumptions: []string{
 			"for an explicit escape of another type (html inside js/css, js inside css, txt or an unknown strategy anywhere) 'exactly once' is ambiguous; only inertness for the template's own type is asserted, which the statement pins under either reading",
